@@ -221,6 +221,8 @@ class HelicityModel:
         symbols |= set(self.kinematic_variables)
         for expr in self.kinematic_variables.values():
             symbols |= expr.free_symbols  # type: ignore[arg-type]
+        # parameters that do not appear in the expression, like stable final state masses
+        symbols |= {s for s in self.parameter_defaults if isinstance(s, sp.Symbol)}
         return symbols
 
 
